@@ -8,6 +8,7 @@ import (
 	"runtime"
 	"runtime/debug"
 	"strconv"
+	"strings"
 	"sync"
 	"time"
 
@@ -115,6 +116,13 @@ func handleJob(raw json.RawMessage) interface{} {
 		return JobResult{Err: err.Error(), ErrKind: "build"}
 	}
 	wa, j.Src = "", ""
+	mem := func(k string) {
+		var ms runtime.MemStats
+		runtime.ReadMemStats(&ms)
+		tm[k+"_heapinuse_MB"] = int64(ms.HeapInuse >> 20)
+		tm[k+"_sys_MB"] = int64(ms.Sys >> 20)
+	}
+	mem("built")
 	runtime.GC() // the compiler's garbage goes before the linear memories come
 	lap("build")
 	out := JobResult{TimingMs: tm}
@@ -149,8 +157,23 @@ func handleJob(raw json.RawMessage) interface{} {
 			out.NRelease += mo.NRelease
 		}
 	}
+	// The collector is off while a call is watched (see CallWatched) and the engine's host-call
+	// glue allocates on every host call, so garbage only goes away if a collection is started
+	// between cases: do so whenever the heap grew by more than gcStep since the last one.
+	const gcStep = 32 << 20
+	var ms runtime.MemStats
+	runtime.ReadMemStats(&ms)
+	heapAtGC := ms.HeapAlloc
 	out.Cases = make([][]CallResult, j.N)
 	for i := 0; i < j.N; i++ {
+		if !out.Hung {
+			runtime.ReadMemStats(&ms)
+			if ms.HeapAlloc > heapAtGC+gcStep {
+				runtime.GC()
+				runtime.ReadMemStats(&ms)
+				heapAtGC = ms.HeapAlloc
+			}
+		}
 		out.Cases[i] = make([]CallResult, len(insts))
 		for m, in := range insts {
 			if out.Hung {
@@ -175,6 +198,7 @@ func handleJob(raw json.RawMessage) interface{} {
 	}
 	lap("run")
 	if !out.Hung {
+		mem("ran")
 		for _, mo := range lastMon {
 			add(mo)
 		}
@@ -218,6 +242,7 @@ type Runner struct {
 	Capped                            string // why the exploration was cut, "" if complete
 	NMalloc, NFree, NRetain, NRelease int64
 	Programs, UnreproducedHangs       int
+	WorkerPeakMB                      map[string]int64 // max over jobs of the workers' Go heap figures
 }
 
 // InstallRetire makes the pool kill workers that reported a hang or ask to be recycled.
@@ -245,6 +270,14 @@ func (rn *Runner) job(idx []int) (jr JobResult, bad string, status string) {
 		return jr, jr.ErrKind + ": " + jr.Err, status
 	}
 	rn.mu.Lock()
+	if rn.WorkerPeakMB == nil {
+		rn.WorkerPeakMB = map[string]int64{}
+	}
+	for k, v := range jr.TimingMs {
+		if strings.HasSuffix(k, "_MB") && v > rn.WorkerPeakMB[k] {
+			rn.WorkerPeakMB[k] = v
+		}
+	}
 	rn.Programs++
 	rn.NMalloc += jr.NMalloc
 	rn.NFree += jr.NFree
